@@ -283,6 +283,21 @@
    (a).neighbour.r.nQ == (b).neighbour.r.nQ && (a).neighbour.r.up == (b).neighbour.r.up && \
    (a).neighbour.cur == (b).neighbour.cur && (a).neighbour.idx == (b).neighbour.idx && \
    (a).neighbour.bound == (b).neighbour.bound && (a).neighbour.poisoned == (b).neighbour.poisoned)
+/* observed entries of vector<size_t> / matrix results */
+#define V_AT_P(v) ((v).vP)
+#define V_AT_Q(v) (G_P == G_Q ? (v).vP : (v).vQ)
+#define MAT_PQ(m) (G_P == G_Q ? (m).rowP.vP : (m).rowP.vQ)
+#define MAT_QP(m) (G_P == G_Q ? (m).rowP.vP : (m).rowQ.vP)
+/* copies of (G_P,G_Q) [resp. (G_Q,G_P)] among the positions the edge iterator has passed */
+#define EIT_SEEN_PQ(it, g)                                                    \
+  ((bg_size)(it).vertex < (bg_size)G_P ? (bg_size)0 : (bg_size)(it).vertex == (bg_size)G_P ? C_NQ((it).neighbour.p) : D_CNT_PQ(g))
+#define EIT_SEEN_QP(it, g)                                                    \
+  ((bg_size)(it).vertex < (bg_size)G_Q ? (bg_size)0 : (bg_size)(it).vertex == (bg_size)G_Q ? (it).neighbour.p.nP : D_CNT_QP(g))
+/* the common part of every edges() loop invariant: position valid, end() fixed */
+#define EIT_LOOP(it, e, g)                                                    \
+  ((it).graph == (g) && (e).graph == (g) && EIT_OK(it, g) && BG_SCRATCH_CLEAN_NF && \
+   (e).vertex == (e).endVertex && (e).endVertex == EIT_END_OF(g) && (e).neighbour.r.len == 0 && \
+   !(e).neighbour.poisoned && (e).neighbour.idx == ((g)->size == 0 ? BG_IT_SINGULAR_IDX : (bg_size)(e).vertex))
 /* WF without the clean-cache clause */
 #define D_WF_LOOP(g) (D_WF_SAFE(g) && bg_cur_adj == &(g)->adjacencyList)
 /* cursor j is a valid position of row r */
